@@ -3,6 +3,7 @@ package main
 import (
 	"fmt"
 	"math"
+	"strings"
 
 	"go.1password.io/spg"
 )
@@ -48,6 +49,12 @@ func showTokensCompact(ts spg.Tokens) string {
 	return s
 }
 
+// The entropy handed to Tokenize is an opaque float32 that must come back bit for bit, whatever it is:
+// the value varies with the case (zero, negative, infinite, NaN and denormal included).
+var entChoices = []float32{3.25, 0, -2.5, float32(math.Inf(1)), 41.5, float32(math.NaN()), 1e-45, float32(math.Inf(-1)), 118.61}
+
+func entFor(n int) float32 { return entChoices[n%len(entChoices)] }
+
 func init() {
 	// token <k> (<value> <type>)*  ->  kind, index, round trip
 	families["token"] = func(t *toks) string {
@@ -63,13 +70,13 @@ func init() {
 		for _, v := range vals {
 			pw += v
 		}
-		return roundTrip(ts, pw, 3.25)
+		return roundTrip(ts, pw, entFor(len(pw)+k))
 	}
 	// tokenize <pw> <index>  ->  ok tokens / err kind; entok=1 iff the entropy passed in came back
 	families["tokenize"] = func(t *toks) string {
 		pw := t.str()
 		idx := t.bytes()
-		const ent = float32(41.5)
+		ent := entFor(len(pw) + len(idx))
 		p, err := spg.Tokenize(pw, spg.Indices(idx), ent)
 		if err != nil {
 			return "err " + errKind(err)
@@ -78,6 +85,20 @@ func init() {
 		if math.Float32bits(p.Entropy) == math.Float32bits(ent) {
 			entok = 1
 		}
-		return fmt.Sprintf("ok %s entok=%d", showTokens(p.Tokens()), entok)
+		res := fmt.Sprintf("ok %s entok=%d", showTokens(p.Tokens()), entok)
+		// the result is the caller's own: later decodings (other text of the same shape, same and other indices)
+		// must not change it
+		before := showTokens(p.Tokens()) + "|" + p.String()
+		func() {
+			defer func() { _ = recover() }()
+			alt := strings.Map(func(rune) rune { return '#' }, pw)
+			_, _ = spg.Tokenize(alt, spg.Indices(idx), ent)
+			_, _ = spg.Tokenize(alt+alt, spg.Indices{0}, ent)
+			_, _ = spg.Tokenize(alt, spg.Indices{1, 1}, ent)
+		}()
+		if showTokens(p.Tokens())+"|"+p.String() != before {
+			res += " RETURNED-PASSWORD-CHANGED-BY-A-LATER-CALL"
+		}
+		return res
 	}
 }
